@@ -1222,6 +1222,13 @@ class SequenceValue(GenericValue):
                 )
             my_len = len(self.members)
             their_len = len(other.members)
+            my_unpacked = [i for i, (is_many, _) in enumerate(self.members) if is_many]
+            if len(my_unpacked) == 1 and [
+                is_many for is_many, _ in self.members
+            ] != [is_many for is_many, _ in other.members]:
+                return self._can_assign_to_unpacked(
+                    other, my_unpacked[0], can_assign, ctx
+                )
             if my_len != their_len:
                 type_str = stringify_object(self.typ)
                 return CanAssignError(
@@ -1254,6 +1261,68 @@ class SequenceValue(GenericValue):
                 bounds_maps.append(can_assign)
             return unify_bounds_maps(bounds_maps)
         return super().can_assign(other, ctx)
+
+    def _can_assign_to_unpacked(
+        self,
+        other: "SequenceValue",
+        index: int,
+        type_bounds: BoundsMap,
+        ctx: CanAssignContext,
+    ) -> CanAssign:
+        """Match another sequence against prefix + unpacked member + suffix.
+
+        For example, ``tuple[int, *tuple[str, ...]]`` accepts ``(1,)`` and
+        ``(1, "a", "b")``. Every single element of the other sequence that is not
+        needed for the prefix or the suffix must fit the unpacked member.
+
+        """
+        prefix = [member for _, member in self.members[:index]]
+        unpacked = self.members[index][1]
+        suffix = [member for _, member in self.members[index + 1 :]]
+        their_unpacked = [i for i, (is_many, _) in enumerate(other.members) if is_many]
+        type_str = stringify_object(self.typ)
+        if len(their_unpacked) > 1:
+            return CanAssignError(
+                f"Cannot assign {type_str} with multiple unpacked members"
+            )
+        if their_unpacked:
+            their_index = their_unpacked[0]
+            their_front = [m for _, m in other.members[:their_index]]
+            their_back = [m for _, m in other.members[their_index + 1 :]]
+            extra = [other.members[their_index][1]]
+        else:
+            their_front = [m for _, m in other.members]
+            their_back = []
+            extra = []
+            if len(their_front) >= len(prefix) + len(suffix):
+                their_back = their_front[len(their_front) - len(suffix) :]
+                their_front = their_front[: len(their_front) - len(suffix)]
+        if len(their_front) < len(prefix) or len(their_back) < len(suffix):
+            their_len = len(their_front) + len(their_back)
+            at_least = "at least " if their_unpacked else ""
+            return CanAssignError(
+                f"Cannot assign {type_str} of length {at_least}{their_len} to"
+                f" {type_str} of length at least {len(prefix) + len(suffix)}"
+            )
+        middle = [
+            *their_front[len(prefix) :],
+            *extra,
+            *their_back[: len(their_back) - len(suffix)],
+        ]
+        pairs = [
+            *zip(prefix, their_front),
+            *[(unpacked, member) for member in middle],
+            *zip(suffix, their_back[len(their_back) - len(suffix) :]),
+        ]
+        bounds_maps = [type_bounds]
+        for i, (my_member, their_member) in enumerate(pairs):
+            can_assign = my_member.can_assign(their_member, ctx)
+            if isinstance(can_assign, CanAssignError):
+                return CanAssignError(
+                    f"Types for member {i} are incompatible", [can_assign]
+                )
+            bounds_maps.append(can_assign)
+        return unify_bounds_maps(bounds_maps)
 
     def substitute_typevars(self, typevars: TypeVarMap) -> Value:
         return SequenceValue(
